@@ -1,4 +1,4 @@
-(* Props/C08.v — property theorems only; each closed by `exact <lemma>` (proofs in StateTree/Lemmas.v).
+(* Props/C08.v — property theorems only; each closed by `exact <lemma>` (proofs in StateTree/{Lemmas,Lcs,Apply,Embeds}.v).
 
    C08: "For every pair of old and new state layouts, the computed migration copies only between
    subtrees of identical shape, stays inside both storages, never writes a destination word twice,
@@ -69,30 +69,30 @@ Theorem C08_perm : forall (o n : skel) (total : N) (ps ps' : list patch) (old : 
 Proof. exact plan_apply_perm. Qed.
 
 (* ---- last sentence of the property ("survivors") ----
-   `embeds new old`: new is obtained from old by deleting subtrees at any depth
-   (Inductive embeds / embeds_list, defined in StateTree/Embeds.v:
-      emb_eq   : embeds s s
-      emb_call : embeds_list ns os -> embeds (FnCall ns) (FnCall os)
-      el_nil   : embeds_list [] []
-      el_skip  : embeds_list ns os -> embeds_list ns (o :: os)
-      el_keep  : embeds n o -> embeds_list ns os -> embeds_list (n :: ns) (o :: os) ) *)
+   `embeds new old` (StateTree/Embeds.v): new is obtained from old by deleting subtrees at any depth.
+   After the F1 fix (score = carried cells, backtrack follows the DP table) the clause holds for ALL layouts. *)
 
-(* On the code as it stands the survivors clause is FALSE (finding F1): *)
-Theorem C08_survivors_refuted :
-  exists o n : skel, embeds n o /\
-    exists total ps, plan o n = Some (total, ps) /\ sumN (map p_sz ps) < size n.
-Proof. exact survivors_refuted. Qed.
-(* witness: o = FnCall [FnCall [Mem 1; Feed 1; Mem 1]; FnCall [Mem 1; Delay 1]], n = FnCall [FnCall [Mem 1; Feed 1; Mem 1]] *)
+(* new ⊑ old (subtrees removed): every word of the new layout is written by some patch, i.e. every word of
+   every surviving subtree is carried over; old ⊑ new (subtrees added): every word of the old layout is read
+   by some patch. *)
+Theorem C08_survivors : forall (o n : skel) (total : N) (ps : list patch),
+  plan o n = Some (total, ps) ->
+  (embeds n o -> forall i, i < size n -> exists p, In p ps /\ p_dst p <= i < p_dst p + p_sz p) /\
+  (embeds o n -> forall i, i < size o -> exists p, In p ps /\ p_src p <= i < p_src p + p_sz p).
+Proof. exact survivors. Qed.
 
-(* Restricted positive theorem: layouts whose root children are all leaves (no nested call, hence no
-   partial sibling match): every word of the new layout is carried when new ⊑ old, and every word of
-   the old layout is carried when old ⊑ new.   is_leaf s := match s with FnCall _ => False | _ => True end *)
-Theorem C08_survivors_flat_partial : forall os ns : list skel,
-  Forall is_leaf os -> Forall is_leaf ns ->
-  forall total ps, plan (FnCall os) (FnCall ns) = Some (total, ps) ->
-    (embeds (FnCall ns) (FnCall os) -> sumN (map p_sz ps) = size (FnCall ns)) /\
-    (embeds (FnCall os) (FnCall ns) -> sumN (map p_sz ps) = size (FnCall os)).
-Proof. exact survivors_flat. Qed.
+(* the same, as a count: the plan carries exactly size(new) resp. size(old) words *)
+Theorem C08_survivors_count : forall (o n : skel) (total : N) (ps : list patch),
+  plan o n = Some (total, ps) ->
+  (embeds n o -> sumN (map p_sz ps) = size n) /\
+  (embeds o n -> sumN (map p_sz ps) = size o).
+Proof. exact survivors_count. Qed.
+
+(* the former F1 witness now keeps the surviving sibling *)
+Example C08_example_former_F1_witness :
+  plan (FnCall [FnCall [Mem 1; Feed 1; Mem 1]; FnCall [Mem 1; Delay 1]]) (FnCall [FnCall [Mem 1; Feed 1; Mem 1]])
+  = Some (3, [mkPatch 0 0 3]).
+Proof. vm_compute. reflexivity. Qed.
 
 (* hypotheses are satisfiable / theorems are not vacuous *)
 Example C08_example_nontrivial_plan :
